@@ -10,11 +10,12 @@ from harness.props.c04 import compare_factor
 
 OBLIGATIONS = [
     "PgmVerif.C14_each_factor_once", "PgmVerif.C14_moral_covers_family", "PgmVerif.C14_bn_to_mn_measure",
-    "PgmVerif.C14_elimination_is_perfect",
+    "PgmVerif.C14_elimination_is_perfect", "PgmVerif.C14_filled_graph_chordal",
 ]
-PARTIAL = ["every elimination order is proved to be a perfect elimination ordering of the graph it fills in (C14_elimination_is_perfect); the "
-           "classical equivalence 'perfect elimination ordering <=> chordal' and the tree / running-intersection property of the clique tree "
-           "built from the maximal cliques are validated per case by the model's decidable predicates (chordal, tree, RIP, cover), not by theorems",
+PARTIAL = ["every elimination order is proved to be a perfect elimination ordering of the graph it fills in (C14_elimination_is_perfect) and that "
+           "graph is therefore proved chordal - every cycle of length >= 4 has a chord (C14_filled_graph_chordal); that the triangulation the "
+           "implementation returns IS such a fill-in (heuristic orders), and the tree / running-intersection property of the clique tree "
+           "built from the maximal cliques, are validated per case by the model's decidable predicates (chordal, tree, RIP, cover), not by theorems",
            "networkx clique enumeration and spanning tree are trusted; their outputs are validated per case"]
 RULE = ("BNs (C01 generator) and Markov networks / factor graphs with 2-5 variables, cards 2-3, unary, repeated and duplicate factors, "
         "connected for clique-tree targets; triangulation heuristics H1-H6 and explicit orders; 6 hash seeds; non-trivial = at least one "
